@@ -1068,11 +1068,11 @@ def check(run):
         run.broken.append(Broken("correspondence", "factory model evaluation failed", {"error": str(e)[-1500:]}))
     if fbroke:
         for c, i in zip(fcases, fimpl):
-            run.violations += factory_documented(c, i)
+            run.violations += base.safe_oracle(factory_documented, "c18-factory", c, i)
     for k in c18_cases:
-        run.violations += oracle_case(cases[k], impl[k])
+        run.violations += base.safe_oracle(oracle_case, "c18-case", cases[k], impl[k])
     for a, b in pairs:
-        run.violations += order_oracle(cases[a], impl[a], cases[b], impl[b])
+        run.violations += base.safe_oracle(order_oracle, "c18-case", cases[a], impl[a], cases[b], impl[b])
     if rm == "PerMember" and not [v for v in run.violations if v.finding == FINDING_REL]:
         # the witness itself
         run.violations += [v for v in oracle_case(cases[0], impl[0])]
@@ -1083,7 +1083,7 @@ def check(run):
             extra.append(c)
         eimpl = common.run_impl("c18_impl", extra)
         for c, i in zip(extra, eimpl):
-            run.violations += oracle_case(c, i)
+            run.violations += base.safe_oracle(oracle_case, "c18-case", c, i)
         run.coverage["search_cases"] = len(extra)
     run.coverage["trusted_base"] += [
         "coq/Model/Store.v is hand-written; its tie to stix2/datastore/__init__.py, utils.deduplicate and "
